@@ -62,10 +62,66 @@ def canon(frag):
     return pre, segs
 
 
+def ids_after_load(ctx, out, cases):
+    """save with xmi:id, reload in a fresh resource set: ids and positional fragments resolve to the very objects"""
+    import os
+    import tempfile
+    common.use_repo()
+    from pyecore.resources import ResourceSet, URI
+    from harness import kimpl
+    n = 0
+    for case in cases:
+        c2 = dict(case)
+        c2['history'] = [op for op in case['history'] if op[0] in kmodel.MODELLED]
+        c2, _ = kprop.clean_case(c2, [], False)
+        w = kimpl.World(c2, observers=False)
+        for op in c2['history']:
+            w.apply(op)
+        roots = [o for o in w.objs if o.eContainer() is None and o.eResource is None][:2] + \
+                [o for r in w.res for o in r.contents]
+        if not roots:
+            continue
+        with tempfile.TemporaryDirectory() as td:
+            rs = ResourceSet()
+            res = rs.create_resource(URI(os.path.join(td, 'm.xmi')))
+            res.use_uuid = True
+            for o in roots:
+                res.append(o)
+            try:
+                res.save()
+            except Exception:   # noqa  (references leaving the resource etc.: not this check's business)
+                continue
+            rs2 = ResourceSet()
+            rs2.metamodel_registry[w.pkg.nsURI] = w.pkg
+            try:
+                r2 = rs2.get_resource(URI(os.path.join(td, 'm.xmi')))
+            except Exception:   # noqa
+                continue
+            n += 1
+            todo = list(r2.contents)
+            while todo:
+                o = todo.pop()
+                todo += list(o.eContents)
+                for what, frag in (('id', o._internal_id), ('fragment', o.eURIFragment())):
+                    try:
+                        back = r2.resolve(frag) if frag else o
+                    except Exception as e:  # noqa
+                        back = 'raised ' + type(e).__name__
+                    if back is not o:
+                        out.fail({'property': PID, 'clause': f'after-load-{what}', 'roots': min(len(r2.contents), 2)},
+                                 f'after a load with xmi:id, {what} {frag!r} resolves to {back!r}', c2)
+                        todo = []
+                        break
+    out.coverage['ids_after_load_models'] = n
+
+
 def run(ctx, out):
     # oracle + kernel correspondence on ownership through the common runner
     focus = [kgen.gen_focus_case(ctx.rng, t, nops=ctx.rng.randrange(4, 12))
              for t in ('cn', 'ckn', 'ctree0', 'ctree') for _ in range(150 if ctx.tier != 'thorough' else 3000)]
+    for j, c in enumerate(focus):
+        c['uuid'] = (j % 2 == 1)        # resources that work with xmi:id must still resolve positional fragments
+    ids_after_load(ctx, out, focus[:40 if ctx.tier != 'thorough' else 600])
     st = kprop.run(ctx, out, PID, ['C11'], {'outcome', 'values', 'ownership'}, 900, 25000, pool=POOL,
                    weights={'res': 0.25, 'delete': 0.04}, p_wrong=0.03, extra_cases=focus)
     # fragment correspondence: final state of fresh histories (prefixes are covered by varying lengths)
